@@ -88,6 +88,7 @@ def explore(res, rng, n, exhaustive=None):
     cyc.config_stream(res, ['rainflow'], dec, digits_choices=(8, 8, 8, 2))
     quiet_matrix(res, rng, max(20, n // 50))
     cyc.micro_stream(res, ['rainflow'], rng, max(30, n // 25), pred)
+    cyc.extreme_scale_stream(res, ['rainflow'], rng, max(12, n // 60))
     res.samples += [{'history': h, 'scale_2^-s': s} for h, s in cases[len(corpus()):len(corpus()) + 3]]
 
 
